@@ -60,6 +60,8 @@ type Hooks struct {
 	// NamesTable states the real package names through ONE ImportNames table (instead of one
 	// ImportName call per import) and then overwrites the table, as a caller that reuses its map does.
 	NamesTable bool
+	// NoFormat sets File.NoFormat: the re-parsed tree must be the same without gofmt in between.
+	NoFormat bool
 }
 
 // grp builds one list construct on s.
@@ -748,6 +750,7 @@ func (c *Conv) funcDeclOn(st *Statement, d *ast.FuncDecl) *Statement {
 // File builds the jennifer File. realName gives the declared package name for an import path.
 func (c *Conv) File(af *ast.File, realName func(path string) string) *File {
 	f := NewFile(af.Name.Name)
+	f.NoFormat = c.Hooks.NoFormat
 	c.pkgs = map[string]string{}
 	table := map[string]string{}
 	defer func() {
